@@ -180,6 +180,8 @@ var hostile = []string{
 	"groups:\n- name: g\n  rules:\n  - record: a\n    expr: sum(\n", "- alert: a\n  expr: up\n  for: x\n  keep_firing_for: -1\n",
 	"- alert: a\n  expr: up\n  annotations:\n    x: '{{ $labels.a }'\n    y: '{{ nofunc }}'\n    z: '{{ $value | humanize }}{{ end }}'\n",
 	"- alert: a\n  expr: up\n  labels:\n    x: '{{ $value }}'\n", "data: |\n  - alert: a\n    expr: up\n", "data: |\n  groups:\n  - name: g\n    rules:\n    - alert: a\n      expr: sum(\n",
+	"x: \"groups:\\n- name: a\\n  rules:\\n  - record: r\\n    expr: sum(a)\\n    bogus: 1\\n\"\ny: 1\n",
+	"x: >\n  - alert: a\n\n    expr: up\n\n    bogus: 1\n\ny: 1\n",
 	"- alert: a\r\n  expr: up\r\n", "- alert: a\r  expr: up\r", "- alert: a\n  expr: up", "- alert: a\n  expr: 'up\n\n\n  == 0'\n", "- ? alert\n  : a\n  ? expr\n  : up\n",
 	"- {alert: a, expr: up, labels: {a: b}}\n", "- alert: !!binary aGVsbG8=\n  expr: up\n", "- alert: a\n  expr: !!str 1\n", "- alert: a\n  expr: 1\n", "- alert: a\n  expr: up\n  labels: {a: 1, b: true, c: null}\n",
 	strings.Repeat("- alert: a\n  expr: up\n", 200), "- alert: " + strings.Repeat("a", 5000) + "\n  expr: up\n", strings.Repeat("a:\n ", 50) + "- alert: a\n", strings.Repeat("[", 200),
@@ -228,7 +230,14 @@ func genCase(t *rapid.T) Case {
 		case 0:
 			src = gen.Emit(gen.Wrap(t, root, rapid.IntRange(1, 3).Draw(t, "levels"), true, map[string]int{}))
 		case 1:
-			src = gen.InBlockScalar(gen.Emit(root), rapid.IntRange(1, 3).Draw(t, "ind"))
+			switch rapid.IntRange(0, 3).Draw(t, "embed") {
+			case 0:
+				src = gen.InQuotedScalar(gen.Emit(root))
+			case 1:
+				src = gen.InFoldedScalar(gen.Emit(root), rapid.IntRange(1, 3).Draw(t, "ind"))
+			default:
+				src = gen.InBlockScalar(gen.Emit(root), rapid.IntRange(1, 3).Draw(t, "ind"))
+			}
 		default:
 			src = gen.Emit(root)
 		}
